@@ -41,7 +41,7 @@ def generate(g, tier):
         elif c < 0.55:
             pre = 'VAR ab 2\nVAR abc 3\nVAR n 0-7\nVAR s "t"\n' if g.chance(0.6) else ''
             cmd = r.choice(['$STRING', 'VAR v', 'IF', 'WHILE', 'REPEAT', 'DELAY', '$ENTER', 'RUN f', '$PRINT', 'WHITESPACE', 'REPEAT i,', 'WHILE c,', '$FOO', 'RETURN'])
-            body = '\n    STRING a' if cmd.split()[0] in ('IF', 'WHILE', 'REPEAT') else ''
+            body = ('\n    STRING a\n    BREAKLOOP' if cmd.split()[0] == 'WHILE' else '\n    STRING a') if cmd.split()[0] in ('IF', 'WHILE', 'REPEAT') else ''
             case = dict(op='compile', src=dict(text=pre + f'{cmd} {soup(g)}{body}'), meta=dict(family='soup'))
         elif c < 0.8:
             # every command x argument kind x block shape
